@@ -348,6 +348,30 @@ def r15_3(ctx, prog, crate):
         ok = len(ids) == 1 and env == "DIVAN_" + list(ids)[0].upper().replace("-", "_")
         ctx.check(ok, "R15.3", ["env-name", env], "option %s has environment fallback `%s`" % (sorted(ids), env), "src/cli.rs",
                   detail={"id": sorted(ids), "env": env})
+    # options are independent: the parser may relate (override / conflict / require) only the documented mode switches -
+    # a relation between two benchmark options makes one run-time value drop another ("setting one option never masks a
+    # different option")
+    cmd_ = prog.body("cli::command", crate)
+    ALLOWED_REL = {("format", "requires", "list"), ("test", "conflicts_with", "list"), ("list", "conflicts_with", "test"),
+                   ("ignored", "conflicts_with", "include-ignored"), ("include-ignored", "conflicts_with", "ignored"),
+                   ("sortr", "overrides_with", "sort"), ("sort", "overrides_with", "sortr")}
+    rels = []
+    for c in cmd_.live_calls():
+        n = c.callee.rsplit("::", 1)[-1]
+        if c.callee.startswith("clap::") and n in ("overrides_with", "overrides_with_all", "conflicts_with", "conflicts_with_all", "requires", "requires_all",
+                                                   "requires_if", "requires_ifs", "exclusive", "group", "groups", "default_value_if", "default_value_ifs"):
+            subj = defined_candidates(cmd_, c)
+            objs = str_consts(cmd_.prov.op_src(c.args[1])) if len(c.args) > 1 else set()
+            for s_ in sorted(subj) or ["?"]:
+                for o_ in sorted(objs) or ["?"]:
+                    rels.append((s_, n, o_, c))
+    opt_ids = {f.replace("_", "-") for f in (fields_ for fields_ in [x["name"] for x in (prog.adt("benchmark::options::BenchOptions", crate) or {"variants": [{"fields": []}]})["variants"][0]["fields"]])} | \
+        {"items-count", "bytes-count", "chars-count", "cycles-count"}
+    for s_, n, o_, c in rels:
+        ctx.check((s_, n, o_) in ALLOWED_REL and s_ not in opt_ids and o_ not in opt_ids, "R15.3", ["option-relation", s_, n, o_],
+                  "the command line relates --%s to --%s with clap's `%s`: benchmark options are independent (a value given for one must not drop or reject another); "
+                  "only the documented mode switches may be related" % (s_, o_, n), c.line(), detail={"subject": s_, "relation": n, "object": o_})
+    ctx.anchor("R15.3", "option relations declared by cli::command", rels, 5)
     adt = prog.adt("benchmark::options::BenchOptions", crate)
     fields = [f["name"] for f in adt["variants"][0]["fields"]] if adt else []
     # every option field has a CLI option with env fallback
